@@ -315,6 +315,58 @@ class Guards:
     def node_of_expr(self, e: ast.AST) -> Optional[int]:
         return self.g.node_containing(e)
 
+    def value(self, valuation: Dict[str, bool], expr: ast.AST, seen: Optional[Set[int]] = None):
+        """the value of a boolean expression under the valuation: True / False / the single residual sub-expression that decides it
+        / None when more than one undecided operand remains"""
+        if seen is None:
+            seen = self.reach(valuation)
+        val = self._val(valuation, seen)
+
+        def simp(e):
+            v = C.eval3(e, val)
+            if v is not None:
+                return v
+            if isinstance(e, ast.BoolOp):
+                rest = []
+                for x in e.values:
+                    sx = simp(x)
+                    if isinstance(e.op, ast.Or):
+                        if sx is True:
+                            return True if not rest else None
+                        if sx is False:
+                            continue
+                    else:
+                        if sx is False:
+                            return False if not rest else None
+                        if sx is True:
+                            continue
+                    if sx is None:
+                        return None
+                    rest.append(sx)
+                if not rest:
+                    return isinstance(e.op, ast.And)
+                return rest[0] if len(rest) == 1 else None
+            if isinstance(e, ast.IfExp):
+                t = simp(e.test)
+                if t is True:
+                    return simp(e.body)
+                if t is False:
+                    return simp(e.orelse)
+                return None
+            if isinstance(e, ast.UnaryOp) and isinstance(e.op, ast.Not):
+                x = simp(e.operand)
+                return (not x) if isinstance(x, bool) else None
+            if isinstance(e, ast.Name) and isinstance(e.ctx, ast.Load):
+                n = self.g.node_containing(e)
+                rd = rd_of(self.f)
+                ds = [d for d in rd.defs_reaching(n, e.id) if d in seen] if n is not None else []
+                if len(ds) == 1 and isinstance(self.g.stmt[ds[0]], (ast.Assign, ast.AnnAssign)) and self.g.stmt[ds[0]].value is not None:
+                    return simp(self.g.stmt[ds[0]].value)
+                return e
+            return e
+
+        return simp(expr)
+
 
 def bool_param_atoms(names: Dict[str, str]) -> Callable[[ast.AST], Optional[str]]:
     """matcher for parameters used as booleans: {param name: atom name}"""
@@ -387,3 +439,37 @@ def is_param(p: Prov, e: ast.AST, name: str) -> bool:
     except KeyError:
         return False
     return bool(tr) and all(x == (f"param:{name}",) for x in tr)
+
+
+def aliases(f: FuncInfo, names: Iterable[str]) -> Set[str]:
+    """local names bound by plain copies `x = y` (also the parameter bindings of inlined helpers) to one of `names`"""
+    out = set(names)
+    changed = True
+    while changed:
+        changed = False
+        for n in ast.walk(f.node):
+            if isinstance(n, (ast.Assign, ast.AnnAssign)) and isinstance(n.value, ast.Name) and n.value.id in out:
+                tgts = n.targets if isinstance(n, ast.Assign) else [n.target]
+                for t in tgts:
+                    if isinstance(t, ast.Name) and t.id not in out:
+                        out.add(t.id)
+                        changed = True
+    return out
+
+
+def private_helpers_of(repo: Repo, allowed_shorts: Iterable[str]) -> Set[str]:
+    """qualified names of private functions that are only ever called (transitively) from the given functions: they are part of
+    the same unit -- a maintainer may split an allowed function into helpers without leaving the layer"""
+    allowed = {f.qn for f in repo.all_funcs() if f.qn.split("::", 1)[1] in set(allowed_shorts) or (f.cls and f.cls in set(allowed_shorts))}
+    callers = repo.callers()
+    changed = True
+    while changed:
+        changed = False
+        for f in repo.all_funcs():
+            if f.qn in allowed or not f.name.startswith("_") or f.name.startswith("__"):
+                continue
+            cs = callers.get(f.qn, set()) - {f.qn}
+            if cs and cs <= allowed:
+                allowed.add(f.qn)
+                changed = True
+    return allowed
